@@ -105,7 +105,7 @@ def execute(case, ctx):
         for q, n in enumerate(ns):
             z = 1j * (2 * n + 1) * math.pi / beta
             g_ref = ref.G(i, j, z)
-            bound = ref.G_drop_bound(i, j, z) + 1e-10 * (1 + abs(g_ref)) + ref.G_merge_term(i, j, z)
+            bound = ref.G_drop_bound(i, j, z) + 1e-10 * (1 + abs(g_ref)) + ref.G_merge_term(i, j, z) + 10.0 * ref.vec_sens(lambda q: q.G(i, j, z))
             for src in ("sa", "ct", "gfc"):
                 g = vals[src][q]
                 if not (abs(g - g_ref) <= bound):
